@@ -32,6 +32,40 @@ pub fn level_filter_n(l: LevelFilter) -> u128 {
 use crate::val::Val;
 use std::sync::{Arc, Mutex};
 
+/// What a case does not say and must not matter: WHAT error a scripted failure is.  The text (`to_string()`) is
+/// always `msg`; by turn the error is a bare message, an `io::Error` of one of a dozen kinds (Interrupted and
+/// WouldBlock - the "try again" kinds - included), bare or under an anyhow context, a `fmt::Error` under a
+/// context, or a custom error type with a source chain.
+pub fn varied_error(msg: String) -> anyhow::Error {
+    use std::io::ErrorKind::*;
+    static TURN: std::sync::atomic::AtomicUsize = std::sync::atomic::AtomicUsize::new(0);
+    let t = TURN.fetch_add(1, std::sync::atomic::Ordering::SeqCst);
+    const KINDS: [std::io::ErrorKind; 12] = [
+        Interrupted, WouldBlock, Other, BrokenPipe, TimedOut, WriteZero, UnexpectedEof, NotFound, PermissionDenied,
+        OutOfMemory, AlreadyExists, InvalidData,
+    ];
+    #[derive(Debug)]
+    struct Chained(String, std::io::Error);
+    impl std::fmt::Display for Chained {
+        fn fmt(&self, f: &mut std::fmt::Formatter) -> std::fmt::Result {
+            f.write_str(&self.0)
+        }
+    }
+    impl std::error::Error for Chained {
+        fn source(&self) -> Option<&(dyn std::error::Error + 'static)> {
+            Some(&self.1)
+        }
+    }
+    let kind = KINDS[(t / 5) % KINDS.len()];
+    match t % 5 {
+        0 => anyhow::anyhow!("{}", msg),
+        1 => anyhow::Error::new(std::io::Error::new(kind, msg)),
+        2 => anyhow::Error::new(std::io::Error::from(kind)).context(msg),
+        3 => anyhow::Error::new(Chained(msg, std::io::Error::from(kind))),
+        _ => anyhow::Error::new(std::fmt::Error).context(msg),
+    }
+}
+
 pub type Rec = Arc<Mutex<Vec<Val>>>;
 
 pub fn new_rec() -> Rec {
@@ -54,7 +88,7 @@ impl log4rs::append::Append for RecAppender {
             .unwrap()
             .push(Val::L(vec![Val::N(1), Val::N(self.idx as u128)]));
         if self.fails {
-            Err(anyhow::anyhow!("{}", self.idx))
+            Err(varied_error(format!("{}", self.idx)))
         } else {
             Ok(())
         }
